@@ -28,6 +28,7 @@ type c06Row struct {
 	Json    map[string]any `json:"json"`
 	Nulled  map[string]any `json:"jsonNulled"` // the same document with every removed field present and null
 	Ror2    []any          `json:"ror2"`
+	Ror2U   []any          `json:"ror2u"` // the same document with unknown composite fields first and last in every record
 	Missing [][]struct {
 		Key []any `json:"key"`
 		Idx int   `json:"idx"`
@@ -80,6 +81,23 @@ func runC06(rowsFile string, reserved map[string]map[string]bool, b *hc.Builder)
 			doc := refJSON(b, row.Json, v)
 			readings = append(readings, reading{name: "json/" + vn, prefix: "", run: func() (reflect.Value, error) { return decode(flavours()[0], doc, typ) }})
 		}
+		if gd, ok := genericDecoders[row.Schema]; ok {
+			// through restlicodec.UnmarshalRestLi[*T], the way every client method decodes a response: the partially
+			// filled instance is returned next to the error
+			doc := refJSON(b, row.Json, 0)
+			readings = append(readings, reading{name: "json/generic-helper", prefix: "", run: func() (reflect.Value, error) {
+				r, err := restlicodec.NewJsonReader([]byte(doc))
+				if err != nil {
+					return reflect.New(typ), err
+				}
+				v, err := gd(r)
+				if rv := reflect.ValueOf(v); v != nil && rv.Kind() == reflect.Ptr && !rv.IsNil() {
+					return rv, err
+				}
+				violation("C06/json/generic-helper/no-value", fmt.Sprintf("UnmarshalRestLi[*%s] returned no instance (error: %v): the partially filled value is lost", row.Schema, err), cs)
+				return reflect.New(typ), err
+			}})
+		}
 		if row.Nulled != nil {
 			// "absent or null": removed fields written as null members instead (plain, and among unknown fields)
 			for _, v := range []int{0, 3} {
@@ -104,6 +122,18 @@ func runC06(rowsFile string, reserved map[string]map[string]bool, b *hc.Builder)
 			readings = append(readings, reading{name: fl.name, prefix: prefix, run: func() (reflect.Value, error) {
 				return decode(fl, refRor2(b, row.Ror2, reserved[fl.ror2], 0, atomText), typ)
 			}})
+		}
+		if row.Ror2U != nil {
+			for _, fl := range flavours()[2:] {
+				fl := fl
+				prefix := ""
+				if fl.name == "query" {
+					prefix = "p."
+				}
+				readings = append(readings, reading{name: fl.name + "/unknown-composite-fields", prefix: prefix, run: func() (reflect.Value, error) {
+					return decode(fl, refRor2(b, row.Ror2U, reserved[fl.ror2], 0, atomText), typ)
+				}})
+			}
 		}
 		// query parameters: the document is the value of parameter p; a second required parameter (zz) is missing and a
 		// third one (other) is present: every missing path must be reported together, and `other` must still be read
